@@ -1147,12 +1147,17 @@ def run(ctx):
         c = json.load(open(f))
         c['_corpus'] = os.path.basename(f)
         corpus.append(c)
+    replay_rows = []
     if ctx.replay:
-        corpus = [json.load(open(ctx.replay))['case']]
+        rc = json.load(open(ctx.replay))['case']
+        if 'service_row' in rc:
+            corpus, replay_rows = [], [rc['service_row']]
+        else:
+            corpus = [rc]
     else:
-        nvalid = ctx.scale(150, 3000)
-        nbig = ctx.scale(3, 60)
-        nmal = ctx.scale(96, 1500)
+        nvalid = ctx.scale(150, 1200)
+        nbig = ctx.scale(3, 30)
+        nmal = ctx.scale(96, 600)
         valid = [gen_case(rng) for _ in range(nvalid)] + [gen_case(rng, big=True) for _ in range(nbig)]
         for c in valid:
             if rng.random() < 0.7:
@@ -1263,10 +1268,10 @@ def run(ctx):
             terms.append(f'conv_case {rows_term(c)}')
             meta.append((c, data, impl, exc))
         # Request_element alone, on directly built Request objects (row by row)
-        req_rows = []
+        req_rows = list(replay_rows)
         if not ctx.replay:
             base = [c for c in valid if c.get('services')]
-            for c in base[:ctx.scale(70, 1500)]:
+            for c in base[:ctx.scale(70, 500)]:
                 for s in c['services']:
                     s = dict(s)
                     k = rng.random()
